@@ -8,7 +8,7 @@
    The registered state is [s_nodes]; [holders ns v] are the linked data nodes
    that hold volume v; [crit] is the property's criterion evaluated on it. *)
 From Coq Require Import List NArith Bool.
-From SW Require Import model.TopoLayout proof.TopoLayoutProofs.
+From SW Require Import model.TopoLayout model.TopoMulti proof.TopoLayoutProofs proof.TopoLayoutMulti.
 Import ListNotations.
 Local Open Scope N_scope.
 
@@ -70,3 +70,110 @@ Example c11_example :
   let s := run cfg001 init sample_history in
   writable s 1 = true /\ writable s 2 = false /\ lookup s 1 = [2; 1] /\ crit cfg001 (s_nodes s) 1 = true.
 Proof. exact sample_history_ok. Qed.
+Print Assumptions c11_example.
+
+(* The size clause PER VOLUME: the whole criterion for every vid whose own full
+   reports stay under the limit, whatever is reported about other vids (the
+   trigger of finding 0 is per vid, not history-wide). *)
+Theorem c11_writable_sound_partial_per_vid : forall c, 1 <= c_copy c -> 0 < c_limit c ->
+  forall es, wf_history es -> forall v, trigger_size_v c es v = false ->
+    let s := run c init es in writable s v = true -> crit c (s_nodes s) v = true.
+Proof. exact writable_sound_partial_v. Qed.
+Print Assumptions c11_writable_sound_partial_per_vid.
+
+(* ... strictly stronger than the history-wide form: a history inside the old
+   trigger whose vid 2 the per-vid theorem still covers *)
+Example c11_per_vid_trigger_narrower :
+  let h := [EFull 1 [vi 1 150 false]; EFull 1 [vi 2 10 false; vi 1 150 false]] in
+  trigger_size cfg000 h = true /\ trigger_size_v cfg000 h 2 = false /\ writable (run cfg000 init h) 2 = true.
+Proof. exact per_vid_trigger_narrower. Qed.
+Print Assumptions c11_per_vid_trigger_narrower.
+
+(* The oversized-set guard (volume_layout.go rememberOversizedVolume +
+   ensureCorrectWritables): registering a replica whose size is at or over the
+   limit never ADDS the vid to writables, in any layout state, and records it in
+   the oversized set. *)
+Theorem c11_oversized_registration_not_admitted : forall c ns vi n l,
+  c_limit c <= vi_size vi ->
+  mem (vi_id vi) (l_writ (register_layout c ns vi n l)) = true -> mem (vi_id vi) (l_writ l) = true.
+Proof. exact oversized_registration_not_admitted. Qed.
+Print Assumptions c11_oversized_registration_not_admitted.
+Theorem c11_oversized_registration_recorded : forall c ns vi n l,
+  c_limit c <= vi_size vi -> bs_true (vi_id vi) (l_os (register_layout c ns vi n l)) = true.
+Proof. exact oversized_registration_recorded. Qed.
+Print Assumptions c11_oversized_registration_recorded.
+
+(* ---------- several layouts, DataNode objects, heartbeat streams (model/TopoMulti.v) ----------
+   [m_lookup_exact mc] / [m_writable_sound mc]: the two clauses at full strength
+   over ALL histories of the multi model, measured against the cluster state as
+   the servers reported it ([truth], computed from the events alone).  Both are
+   refuted by the code; each witness lies inside exactly the per-vid trigger named. *)
+
+(* finding 1: a server reports a registered vid under another replication, then deletes it *)
+Theorem c11_multi_lookup_refuted_relayout : ~ m_lookup_exact mc12.
+Proof. exact m_lookup_exact_refuted_relayout. Qed.
+Print Assumptions c11_multi_lookup_refuted_relayout.
+Theorem c11_multi_writable_refuted_relayout : ~ m_writable_sound mc12.
+Proof. exact m_writable_sound_refuted_relayout. Qed.
+Print Assumptions c11_multi_writable_refuted_relayout.
+Theorem c11_relayout_witness :
+  let s := mrun mc12 minit relayout_history in let t := fold_left tstep relayout_history tinit in
+  t_holders t 1 = [] /\ mlookup s 1 = Some [1] /\ mwritable s 0 1 = true /\
+  trig_relayout_v relayout_history 1 = true.
+Proof. exact relayout_witness. Qed.
+Print Assumptions c11_relayout_witness.
+
+(* finding 2: overlapping heartbeat streams of one server *)
+Theorem c11_multi_lookup_refuted_object : ~ m_lookup_exact mc1.
+Proof. exact m_lookup_exact_refuted_object. Qed.
+Print Assumptions c11_multi_lookup_refuted_object.
+Theorem c11_stale_object_witness :
+  let s := mrun mc1 minit stale_object_history in let t := fold_left tstep stale_object_history tinit in
+  t_holders t 1 = [1] /\ mlookup s 1 = Some [] /\ mlookup s 2 = Some [1] /\ mwritable s 0 2 = true /\
+  pick_panics s 0 = true /\ trig_object_v stale_object_history 1 = true.
+Proof. exact stale_object_witness. Qed.
+Print Assumptions c11_stale_object_witness.
+Theorem c11_late_close_witness :
+  let s := mrun mc1 minit late_close_history in let t := fold_left tstep late_close_history tinit in
+  t_holders t 1 = [1] /\ mlookup s 1 = Some [] /\ trig_object_v late_close_history 1 = true.
+Proof. exact late_close_witness. Qed.
+Print Assumptions c11_late_close_witness.
+
+(* finding 3: a short "new" message resets the registered size / read-only flag *)
+Theorem c11_multi_writable_refuted_clobber : ~ m_writable_sound mc1.
+Proof. exact m_writable_sound_refuted_clobber. Qed.
+Print Assumptions c11_multi_writable_refuted_clobber.
+Theorem c11_clobber_witness :
+  let s := mrun mc1 minit clobber_history in let t := fold_left tstep clobber_history tinit in
+  mwritable s 0 1 = true /\ t_rw_ok t 1 = false /\ trig_clobber_v mc1 clobber_history 1 = true /\
+  trig_size_v mc1 clobber_history 1 = false.
+Proof. exact clobber_witness. Qed.
+Print Assumptions c11_clobber_witness.
+(* the registered state the single-layout theorems speak about is NOT the reported one here *)
+Theorem c11_clobber_single_witness :
+  let s := run cfg000 init [EFull 1 [vi 1 10 true]; EIncr 1 [1] []] in
+  writable s 1 = true /\ ginfo (s_nodes s) 1 1 = Some (vi 1 0 false).
+Proof. exact clobber_single_witness. Qed.
+Print Assumptions c11_clobber_single_witness.
+
+(* finding 4: replicas of one vid under two layouts *)
+Theorem c11_multi_lookup_refuted_split : ~ m_lookup_exact mc33.
+Proof. exact m_lookup_exact_refuted_split. Qed.
+Print Assumptions c11_multi_lookup_refuted_split.
+Theorem c11_split_witness :
+  let s := mrun mc33 minit split_history in let t := fold_left tstep split_history tinit in
+  t_holders t 3 = [2; 3] /\ lookup_candidates s 3 = [[2]; [3]] /\ mlookup s 3 = None /\
+  trig_split_v split_history 3 = true /\ trig_relayout_v split_history 3 = false.
+Proof. exact split_witness. Qed.
+Print Assumptions c11_split_witness.
+
+(* non-vacuity: a two-layout history with a reconnect outside every trigger;
+   lookups exact, the offered volumes meet the criterion *)
+Example c11_multi_example :
+  let s := mrun mc12 minit multi_sample in let t := fold_left tstep multi_sample tinit in
+  mlookup s 1 = Some [1] /\ mlookup s 2 = Some [2; 1] /\ t_holders t 2 = [2; 1] /\
+  mwritable s 0 1 = true /\ mwritable s 1 2 = true /\ t_crit mc12 t 1 2 = true /\
+  forallb (fun v => negb (trig_relayout_v multi_sample v || trig_split_v multi_sample v ||
+                          trig_object_v multi_sample v || trig_clobber_v mc12 multi_sample v || trig_size_v mc12 multi_sample v)) [1; 2] = true.
+Proof. exact multi_sample_ok. Qed.
+Print Assumptions c11_multi_example.
